@@ -264,4 +264,507 @@ def build(tier, seed):
                        "(expval / var / probs / sample), mid-circuit measurement values",
                        "more than 3 device wires; float eigenvalues that are equal as numbers but not bit-identical",
                        "the base class's eigvals() (observable eigenvalues), Wires objects"]
+    sample_obligations(plan, tier)
     return plan
+
+
+# =====================================================================================================================================================
+# process_samples of every measurement type: the REAL numpy code run on all bit arrays of a shape with SYMBOLIC eigenvalues (vf/symx/reals.py)
+# =====================================================================================================================================================
+PRS = "pennylane/measurements/process_samples.py"
+PROBS = "pennylane/measurements/probs.py"
+EXPV = "pennylane/measurements/expval.py"
+VARF = "pennylane/measurements/var.py"
+SAMP = "pennylane/measurements/sample.py"
+MVF = "pennylane/ops/mid_measure/measurement_value.py"
+TOL = 1e-9
+
+
+def _selections(labels, kmax=None):
+    out = []
+    for k in range(1, (kmax or len(labels)) + 1):
+        out += list(itertools.permutations(labels, k))
+    return out
+
+
+def _all_bit_arrays(shape):
+    import numpy as np
+    n = 1
+    for d in shape:
+        n *= d
+    for bits in itertools.product((0, 1), repeat=n):
+        yield np.array(bits, dtype=np.int64).reshape(shape)
+
+
+class Scn:
+    """one scenario: measurement kind + how its eigenvalues arise + wires + shot range; `samples` is filled in per bit array"""
+
+    def __init__(self, kind, eig, wire_order, wires, shot_range=None, all_outcomes=False, uid_order=None, op_list=False):
+        self.kind, self.eig, self.wire_order, self.wires = kind, eig, tuple(wire_order), tuple(wires)
+        self.shot_range, self.all_outcomes, self.uid_order, self.op_list = shot_range, all_outcomes, uid_order, op_list
+
+    # number of symbolic real parameters
+    def n_params(self):
+        k = len(self.wires)
+        if self.eig == "eigvals":
+            return 2 ** k
+        if self.eig == "mv" and not self.op_list:
+            return {1: 2, 2: 4, 3: 6}[k]
+        return 0
+
+    def label(self):
+        return (f"{self.kind} eig={self.eig} order={list(self.wire_order)} wires={list(self.wires)} shot_range={self.shot_range}"
+                + (f" all_outcomes={self.all_outcomes}" if self.kind == "counts" else "")
+                + (f" uids={self.uid_order}" if self.uid_order else "") + (" op=[list]" if self.op_list else ""))
+
+    # ---- the arithmetic the measurement value stands for (used for the real object AND, on sample columns, for the specification)
+    def mv_fn(self, c, b):
+        k = len(self.wires)
+        if k == 1:
+            return c[0] * b[0] + c[1]
+        if k == 2:
+            return c[0] * b[0] + c[1] * b[1] + c[2] * (b[0] * b[1]) + c[3]
+        return c[0] * b[0] + c[1] * b[1] + c[2] * b[2] + c[3] * (b[0] * b[1]) + c[4] * (b[1] * b[2]) + c[5]
+
+    def build_mp(self, params):
+        from pennylane.measurements import SampleMP, ExpectationMP, VarianceMP, CountsMP, ProbabilityMP
+        from pennylane.ops import MeasurementValue, MidMeasure
+        cls = {"sample": SampleMP, "expval": ExpectationMP, "var": VarianceMP, "counts": CountsMP, "probs": ProbabilityMP}[self.kind]
+        kw = {"all_outcomes": self.all_outcomes} if self.kind == "counts" else {}
+        if self.eig == "eigvals":
+            return cls(eigvals=params, wires=list(self.wires), **kw)
+        if self.eig == "none":
+            return cls(wires=list(self.wires) if self.wires else None, **kw)
+        uids = self.uid_order or list(range(len(self.wires)))
+        ms = [MeasurementValue([MidMeasure(wires=w, meas_uid=f"u{u}")]) for w, u in zip(self.wires, uids)]
+        if self.op_list:
+            return cls(obs=ms, **kw)
+        return cls(obs=self.mv_fn(params, ms), **kw)
+
+    def call(self, mp, samples):
+        from pennylane.wires import Wires
+        kw = {} if self.shot_range is None else {"shot_range": self.shot_range}
+        return mp.process_samples(samples, Wires(list(self.wire_order)), **kw)
+
+    # ---- specification: direct arithmetic on the same samples (generic python arithmetic: works on SReal and on floats)
+    def rows(self, samples2d):
+        rows = [[int(x) for x in r] for r in samples2d]
+        return rows if self.shot_range is None else rows[self.shot_range[0]:self.shot_range[1]]
+
+    def cols(self):
+        order = list(self.wire_order)
+        return [order.index(x) for x in self.wires] if self.wires else list(range(len(order)))
+
+    def shot_values(self, rows, params):
+        cols = self.cols()
+        if self.eig == "eigvals":
+            return [params[int("".join(str(r[c]) for c in cols), 2)] for r in rows]
+        if self.eig == "mv" and not self.op_list:
+            return [self.mv_fn(params, [r[c] for c in cols]) for r in rows]
+        return None
+
+    def expected(self, samples, params):
+        """nested lists (one level per batch axis) of the expected result; counts: list of (value, count-in-shots) data"""
+        if samples.ndim == 3:
+            return [self.expected(s, params) for s in samples]
+        rows, cols = self.rows(samples), self.cols()
+        n = len(rows)
+        xs = self.shot_values(rows, params)
+        if self.kind == "sample":
+            return xs if xs is not None else [[r[c] for c in cols] for r in rows]
+        if self.kind == "expval":
+            return sum(xs[1:], xs[0]) / n
+        if self.kind == "var":
+            mean = sum(xs[1:], xs[0]) / n
+            sq = [(x - mean) * (x - mean) for x in xs]
+            return sum(sq[1:], sq[0]) / n
+        strings = ["".join(str(r[c]) for c in cols) for r in rows]
+        if self.kind == "probs":
+            return [strings.count(format(i, f"0{len(cols)}b")) / n for i in range(2 ** len(cols))]
+        if self.kind == "counts":
+            if xs is None:
+                keys = [format(i, f"0{len(cols)}b") for i in range(2 ** len(cols))]
+                return {k: strings.count(k) for k in keys if self.all_outcomes or strings.count(k)}
+            every = [params[i] for i in range(len(params))] if self.eig == "eigvals" else \
+                [self.mv_fn(params, [int(b) for b in format(i, f"0{len(cols)}b")]) for i in range(2 ** len(cols))]
+            return ("values", xs, every)
+        raise AssertionError(self.kind)
+
+
+def _flat(x):
+    import numpy as np
+    a = np.asarray(x, dtype=object) if not isinstance(x, np.ndarray) else x
+    return a.shape, [a[idx] for idx in np.ndindex(*a.shape)] if a.shape else [a.item() if hasattr(a, "item") else a]
+
+
+def _scn_goal(scn, got, exp, R):
+    """z3 goal `got equals exp` (True / False when decided syntactically); raises TypeError on entries that are no numbers"""
+    import numpy as np
+    if isinstance(exp, tuple) and exp and exp[0] == "values":                         # counts keyed by eigenvalues
+        _, xs, every = exp
+        if isinstance(got, list):
+            return z3.BoolVal(False)
+        if not isinstance(got, dict):
+            return z3.BoolVal(False)
+        keys = [(R.term_of(k), R.term_of(v)) for k, v in got.items()]
+        xt, et = [R.term_of(x) for x in xs], [R.term_of(e) for e in every]
+        goals = []
+        for v in et + [k for k, _ in keys]:
+            lhs = z3.Sum([z3.If(k == v, c, z3.RealVal(0)) for k, c in keys]) if keys else z3.RealVal(0)
+            rhs = z3.Sum([z3.If(x == v, z3.RealVal(1), z3.RealVal(0)) for x in xt])
+            goals.append(lhs == rhs)
+        for k, c in keys:
+            goals.append(z3.Or(*[k == e for e in et]))
+            if not scn.all_outcomes:
+                goals.append(c != 0)
+        if scn.all_outcomes:
+            for e in et:
+                goals.append(z3.Or(*[k == e for k, _ in keys]) if keys else z3.BoolVal(False))
+        return z3.And(*goals)
+    if isinstance(exp, dict):
+        if not isinstance(got, dict):
+            return z3.BoolVal(False)
+        g = {str(k): int(v) for k, v in got.items()}
+        return z3.BoolVal(g == exp)
+    if isinstance(got, dict):
+        return z3.BoolVal(False)
+    sg, fg = _flat(got)
+    se, fe = _flat(exp)
+    if tuple(sg) != tuple(se):
+        return z3.BoolVal(False)
+    goals = []
+    for a, b in zip(fg, fe):
+        if a is b:
+            continue
+        ta, tb = R.term_of(a), R.term_of(b)
+        if ta.eq(tb):
+            continue
+        if isinstance(a, (float, np.floating)) or isinstance(b, float):
+            goals.append(z3.And(ta - tb <= TOL, tb - ta <= TOL))
+        else:
+            goals.append(ta == tb)
+    return z3.And(*goals) if goals else z3.BoolVal(True)
+
+
+def _native_check(scn, samples, values):
+    """run the REAL code on floats and compare with direct arithmetic; returns None when fine, else a description"""
+    import numpy as np
+    params = np.array([float(v) for v in values], dtype=float) if values is not None and len(values) else None
+    try:
+        got = scn.call(scn.build_mp(params), samples)
+    except Exception as ex:  # pylint: disable=broad-except
+        return f"raised {type(ex).__name__}: {ex}"
+    exp = scn.expected(samples, params)
+    try:
+        if isinstance(exp, tuple):
+            def one(g, xs, every):
+                if not isinstance(g, dict):
+                    return False
+                g = {float(k): int(v) for k, v in g.items()}
+                want = {}
+                for x in xs:
+                    want[float(x)] = want.get(float(x), 0) + 1
+                if scn.all_outcomes:
+                    for e in every:
+                        want.setdefault(float(e), 0)
+                return g == want
+            ok = one(got, exp[1], exp[2])
+        elif isinstance(exp, list) and exp and isinstance(exp[0], tuple):
+            ok = isinstance(got, (list, tuple)) and len(got) == len(exp) and all(
+                isinstance(g, dict) and {float(k): int(v) for k, v in g.items()} == _want(e, scn) for g, e in zip(got, exp))
+        elif isinstance(exp, dict):
+            ok = isinstance(got, dict) and {str(k): int(v) for k, v in got.items()} == exp
+        elif isinstance(exp, list) and exp and isinstance(exp[0], dict):
+            ok = isinstance(got, (list, tuple)) and [{str(k): int(v) for k, v in g.items()} for g in got] == exp
+        else:
+            g, e = np.asarray(got, dtype=float), np.asarray(exp, dtype=float)
+            ok = g.shape == e.shape and bool(np.allclose(g, e, atol=TOL, rtol=0))
+    except Exception as ex:  # pylint: disable=broad-except
+        return f"result {got!r} cannot be compared: {type(ex).__name__}: {ex}"
+    return None if ok else f"got {_short(got)}, direct arithmetic gives {_short(exp if not isinstance(exp, tuple) else exp[1])}"
+
+
+def _want(e, scn):
+    want = {}
+    for x in e[1]:
+        want[float(x)] = want.get(float(x), 0) + 1
+    if scn.all_outcomes:
+        for v in e[2]:
+            want.setdefault(float(v), 0)
+    return want
+
+
+def _short(x):
+    import numpy as np
+    try:
+        if isinstance(x, dict):
+            return str({(float(k) if not isinstance(k, str) else k): int(v) for k, v in x.items()})
+        return str(np.asarray(x, dtype=float).round(6).tolist())[:300]
+    except Exception:  # pylint: disable=broad-except
+        return str(x)[:300]
+
+
+def _scn_witness(scn, samples, values):
+    return dict(measurement=scn.label(), samples=samples.tolist(), parameters=None if values is None else [float(v) for v in values])
+
+
+def symbolic_scenarios(scns, shape, quick_skip=None):
+    """obligation body: every bit array of `shape` x every scenario, real code on symbolic parameters, VC per path"""
+    from vf.common import Outcome, DISCHARGED, REFUTED, UNDECIDED, FAULT
+    from vf.symx import bits as B
+    from vf.symx import reals as R
+
+    def fn():
+        n_paths = n_runs = 0
+        left = None
+        for samples in _all_bit_arrays(shape):
+            for scn in scns:
+                n_runs += 1
+                npar = scn.n_params()
+                if npar == 0:                                                    # nothing symbolic: the run on the bit array is the proof
+                    bad = _native_check(scn, samples, None)
+                    n_paths += 1
+                    if bad:
+                        return Outcome(REFUTED, "real-code-run", f"{scn.label()}: {bad}", witness=_scn_witness(scn, samples, None),
+                                       replay=dict(confirmed=True, observed=bad, expected="direct arithmetic on the samples"))
+                    continue
+                holder = {}
+
+                def run(scn=scn, samples=samples, npar=npar):
+                    params, consts = R.real_array(npar, "e")
+                    holder["consts"], holder["params"] = consts, params
+                    return scn.call(scn.build_mp(params), samples)
+                try:
+                    res = B.explore(run, max_paths=400, budget_s=120)
+                except Exception as ex:  # pylint: disable=broad-except
+                    left = left or f"{scn.label()}: {type(ex).__name__}: {ex}"
+                    continue
+                if len(res) > 1 and not B.covers_everything(res):
+                    return Outcome(FAULT, "bits", f"path conditions do not cover the parameter space: {scn.label()}")
+                consts = holder["consts"]
+                exp = scn.expected(samples, holder["params"])
+                for r in res:
+                    n_paths += 1
+                    model = None
+                    if r.exc is not None:
+                        ok, what = False, f"raised {type(r.exc).__name__}: {r.exc}"
+                        s_ = z3.Solver()
+                        s_.add(*r.pc)
+                        model = s_.model() if s_.check() == z3.sat else None
+                    else:
+                        try:
+                            goal = _scn_goal(scn, r.value, exp, R)
+                        except TypeError as ex:
+                            left = left or f"{scn.label()}: result not comparable: {ex}"
+                            continue
+                        what = "result differs from direct arithmetic"
+                        if z3.is_true(goal):
+                            continue
+                        ok, model = B.prove(r.pc, goal)
+                        if ok is None:
+                            return Outcome(UNDECIDED, "z3", f"solver unknown: {scn.label()}")
+                    if ok:
+                        continue
+                    values = [R.model_value(model, c) for c in consts] if model is not None else [0] * npar
+                    bad = _native_check(scn, samples, values)
+                    if bad:
+                        return Outcome(REFUTED, "bits+reals+z3", f"{scn.label()}: {what}; replay on floats: {bad}",
+                                       witness=_scn_witness(scn, samples, values),
+                                       replay=dict(confirmed=True, observed=bad, expected="direct arithmetic on the samples"))
+                    if r.exc is not None:                                          # an artefact of the symbolic scalars, not of the code
+                        left = left or f"{scn.label()}: {what}"
+                        continue
+                    return Outcome(REFUTED, "bits+reals+z3", f"{scn.label()}: {what}", witness=_scn_witness(scn, samples, values),
+                                   replay=dict(confirmed=False, observed="the float run agrees with direct arithmetic"))
+        if left:
+            return Outcome(UNDECIDED, "bits+reals", f"symbolic run left the fragment: {left}")
+        return Outcome(DISCHARGED, "bits+reals+z3", f"{n_runs} (bit array, measurement) runs, {n_paths} paths; parameters symbolic",
+                       extra=dict(sub_obligations=n_paths, paths=n_paths))
+    return fn
+
+
+class ObsScn(Scn):
+    """a named observable with CONCRETE eigenvalues (taken from the real eigvals()): bounded stand-in"""
+
+    def __init__(self, kind, obs_name, make_obs, wire_order, wires, shot_range=None, all_outcomes=False):
+        super().__init__(kind, "eigvals", wire_order, wires, shot_range, all_outcomes)
+        self.obs_name, self.make_obs = obs_name, make_obs
+
+    def n_params(self):
+        return 0
+
+    def label(self):
+        return super().label().replace("eig=eigvals", f"obs={self.obs_name}")
+
+    def build_mp(self, params):
+        from pennylane.measurements import SampleMP, ExpectationMP, VarianceMP, CountsMP
+        cls = {"sample": SampleMP, "expval": ExpectationMP, "var": VarianceMP, "counts": CountsMP}[self.kind]
+        kw = {"all_outcomes": self.all_outcomes} if self.kind == "counts" else {}
+        return cls(obs=self.make_obs(list(self.wires)), **kw)
+
+    def expected(self, samples, params):
+        import numpy as np
+        ev = np.asarray(self.build_mp(None).eigvals(), dtype=float)
+        return super().expected(samples, ev)
+
+
+def _obs_pool():
+    import numpy as np
+    import pennylane as qp
+    rng = np.random.default_rng(30)
+    A = rng.normal(size=(4, 4))
+    A = A + A.T
+    one = [("Z", lambda w: qp.Z(w[0])), ("X", lambda w: qp.X(w[0])), ("Hadamard", lambda w: qp.Hadamard(w[0])),
+           ("Hermitian[[0,1],[1,0]]", lambda w: qp.Hermitian(np.array([[0.0, 1.0], [1.0, 0.0]]), wires=w)),
+           ("-1*Z", lambda w: qp.s_prod(-1.0, qp.Z(w[0]))), ("0.5*Z", lambda w: qp.s_prod(0.5, qp.Z(w[0]))),
+           ("Hermitian[[2,0],[0,-3]]", lambda w: qp.Hermitian(np.array([[2.0, 0.0], [0.0, -3.0]]), wires=w))]
+    two = [("Z@Z", lambda w: qp.Z(w[0]) @ qp.Z(w[1])), ("Z@X", lambda w: qp.Z(w[0]) @ qp.X(w[1])),
+           ("Hermitian(4x4)", lambda w: qp.Hermitian(A, wires=w)), ("Z+2*Z", lambda w: qp.Z(w[0]) + 2.0 * qp.Z(w[1]))]
+    return {1: one, 2: two}
+
+
+def sample_obligations(plan, tier):
+    from vf.common import Obligation, Outcome, DISCHARGED, REFUTED, UNDECIDED
+    quick = tier == "quick"
+    shapes2 = [(1, 1), (2, 1), (3, 1), (2, 2), (3, 2), (2, 3)] + ([] if quick else [(4, 2), (3, 3)])
+    heavy = {(3, 2)} if quick else set()             # shapes that only the cheap all-concrete group ("bits") visits in the quick tier
+    shapes3 = [(2, 2, 1), (2, 1, 2)] + ([] if quick else [(2, 2, 2), (2, 2, 3)])
+    base_order = (2, 0, 1)
+    orders_of = lambda n: [base_order[:n]] + ([] if quick else [("a", 3, "q")[:n]])          # noqa: E731
+
+    def ranges(shape, group):
+        s = shape[-2]
+        out = [None]
+        if s >= 3 and (group in ("eigvals", "bits") or not quick):
+            out += [(1, s), (0, s - 1)] if not quick else [(1, s)]
+        return out
+
+    def scenarios(group, shape):
+        n, out = shape[-1], []
+        if shape in heavy and group != "bits":
+            return out
+        mv_counts = len(shape) == 2 and (not quick or shape[0] * shape[1] <= 4)
+        for order in orders_of(n):
+            sels = _selections(order)
+            for sr in ranges(shape, group):
+                if group == "eigvals":
+                    for kind in ("sample", "expval", "var"):
+                        out += [Scn(kind, "eigvals", order, wsel, sr) for wsel in sels]
+                elif group == "counts" and len(shape) == 2:
+                    for allo in (False, True):
+                        out += [Scn("counts", "eigvals", order, wsel, sr, all_outcomes=allo) for wsel in sels if len(wsel) <= 2]
+                        out += [Scn("counts", "none", order, wsel, sr, all_outcomes=allo) for wsel in sels + [()]]
+                elif group == "bits":
+                    out += [Scn("probs", "none", order, wsel, sr) for wsel in sels + [()]]
+                    out += [Scn("sample", "none", order, wsel, sr) for wsel in sels + [()]]
+                elif group == "mv":
+                    for wsel in _selections(order, 2 if quick else 3):
+                        k = len(wsel)
+                        uid_orders = [None] + ([list(range(k))[::-1]] if k > 1 else [])
+                        for uo in uid_orders:
+                            kinds = ("sample", "expval", "var") + (("counts",) if mv_counts else ())
+                            if quick and uo is not None:
+                                kinds = ("sample", "expval")
+                            out += [Scn(kind, "mv", order, wsel, sr, uid_order=uo) for kind in kinds]
+                        out += [Scn("probs", "mv", order, wsel, sr, op_list=True), Scn("sample", "mv", order, wsel, sr, op_list=True)]
+                        if mv_counts:
+                            out.append(Scn("counts", "mv", order, wsel, sr, op_list=True))
+        return out
+
+    funcs = {"eigvals": (PRS, "process_raw_samples"), "counts": (CNT, "CountsMP.process_samples"),
+             "bits": (PROBS, "ProbabilityMP.process_samples"), "mv": (PRS, "process_raw_samples")}
+    names = {"eigvals": "C30/process_samples:process_raw_samples/sample-expval-var-with-symbolic-eigenvalues",
+             "counts": "C30/counts:CountsMP.process_samples/strings-and-symbolic-eigenvalues",
+             "bits": "C30/probs:ProbabilityMP.process_samples/probs-and-raw-samples",
+             "mv": "C30/process_samples:process_raw_samples/mid-circuit-values-with-symbolic-coefficients"}
+    samples_txt = {"eigvals": "sample(j) == e[int(bits of the measured wires, 2)], expval == mean, var == mean((x-mean)^2), for all eigenvalues e",
+                   "counts": "counts[v] == number of shots whose outcome string / eigenvalue is v; all_outcomes adds the zero entries",
+                   "bits": "probs[s] == (#shots whose measured bits spell s) / shots; sample() == the measured columns",
+                   "mv": "statistics of c0*m0 + c1*m1 + c2*m0*m1 + c3 == the same arithmetic on the sample columns of the measured wires"}
+    for shape in shapes2 + shapes3:
+        for group in ("eigvals", "counts", "bits", "mv"):
+            scns = scenarios(group, shape)
+            if not scns:
+                continue
+            tag = ("B=%d," % shape[0] if len(shape) == 3 else "") + f"S={shape[-2]},N={shape[-1]}"
+            plan.add(Obligation(f"{names[group]}[{tag}]", "post", symbolic_scenarios(scns, shape), func=funcs[group], size_bounded=True,
+                                timeout=900 if quick else 3600, sample=samples_txt[group]))
+    for file, qual in ((PRS, "process_raw_samples"), (SAMP, "SampleMP.process_samples"), (EXPV, "ExpectationMP.process_samples"),
+                       (VARF, "VarianceMP.process_samples"), (CNT, "CountsMP.process_samples"), (CNT, "CountsMP._samples_to_counts"),
+                       (PROBS, "ProbabilityMP.process_samples"), (PROBS, "ProbabilityMP._count_samples"),
+                       (MVF, "MeasurementValue.wires"), (MVF, "MeasurementValue.items"), (MVF, "MeasurementValue._merge"),
+                       ("pennylane/core/measurements.py", "MeasurementProcess.eigvals"), ("pennylane/core/measurements.py", "MeasurementProcess.wires")):
+        plan.fn_under_contract(file, qual)
+
+    # ---- bounded native stand-ins ------------------------------------------------------------------------------------------------------------------
+    def observables():
+        import numpy as np
+        pool = _obs_pool()
+        rng = np.random.default_rng(3030)
+        n_runs = 0
+        for n in (1, 2, 3):
+            order = base_order[:n]
+            for wsel in _selections(order, 2):
+                for name, mk in pool[len(wsel)]:
+                    for kind, allo in (("sample", False), ("expval", False), ("var", False), ("counts", False), ("counts", True)):
+                        scn = ObsScn(kind, name, mk, order, wsel, all_outcomes=allo)
+                        arrays = list(_all_bit_arrays((2, n))) if n < 3 else [rng.integers(0, 2, size=(5, n)) for _ in range(6)]
+                        arrays += [rng.integers(0, 2, size=(7, n)) for _ in range(3)]
+                        for samples in arrays:
+                            n_runs += 1
+                            bad = _native_check(scn, samples, None)
+                            if bad:
+                                return Outcome(REFUTED, "native(bounded)", f"{scn.label()}: {bad}", witness=_scn_witness(scn, samples, None),
+                                               replay=dict(confirmed=True, observed=bad, expected="eigvals()[int(bits, 2)] arithmetic on the samples"))
+        return Outcome(DISCHARGED, "native(bounded)", f"{n_runs} runs on named observables", extra=dict(bounded=True))
+    plan.add(Obligation("C30/process_samples:process_raw_samples/named-observables(bounded)", "post", observables, bounded=True, timeout=600,
+                        func=(PRS, "process_raw_samples"), sample="Z, X, H, Hermitian, s_prod, prod, sum observables: statistics == eigvals()[bits] arithmetic"))
+
+    def concrete_eigvals():
+        import numpy as np
+        rng = np.random.default_rng(303)
+        pools = {1: [[1.0, -1.0], [-1.0, 1.0], [1.0, 1.0], [-1.0, -1.0], [0.5, -2.0], [0.0, 3.0]],
+                 2: [[1.0, -1.0, -1.0, 1.0], [-1.0, 1.0, 1.0, -1.0], [0.0, 1.0, 2.0, 3.0], [1.0, -1.0, 1.0, -1.0], [2.5, 2.5, -1.0, 0.0]]}
+        n_runs = 0
+        for n in (1, 2, 3):
+            order = base_order[:n]
+            for wsel in _selections(order, 2):
+                for ev in pools[len(wsel)]:
+                    for kind, allo in (("sample", False), ("expval", False), ("var", False), ("counts", False), ("counts", True)):
+                        for sr in (None, (1, 4)):
+                            scn = Scn(kind, "eigvals", order, wsel, sr, all_outcomes=allo)
+                            for samples in [rng.integers(0, 2, size=(5, n)) for _ in range(4)] + [rng.integers(0, 2, size=(2, 5, n))] * (kind != "counts"):
+                                n_runs += 1
+                                bad = _native_check(scn, samples, ev)
+                                if bad:
+                                    return Outcome(REFUTED, "native(bounded)", f"{scn.label()}: {bad}", witness=_scn_witness(scn, samples, ev),
+                                                   replay=dict(confirmed=True, observed=bad, expected="direct arithmetic on the samples"))
+        return Outcome(DISCHARGED, "native(bounded)", f"{n_runs} runs with concrete eigenvalue arrays", extra=dict(bounded=True))
+    plan.add(Obligation("C30/process_samples:process_raw_samples/concrete-eigenvalue-arrays(bounded)", "post", concrete_eigvals, bounded=True, timeout=600,
+                        func=(PRS, "process_raw_samples"), sample="eigenvalue arrays incl. [1,-1], [-1,1], degenerate ones; 5 shots, batches, shot ranges"))
+
+    def mv_wires():
+        from pennylane.ops import MeasurementValue, MidMeasure
+        n_runs = 0
+        for labels in ((2, 0, 1), ("q", "a", "m"), (7, "b", 0)):
+            for wsel in _selections(labels):
+                k = len(wsel)
+                for uids in itertools.permutations(range(k)):
+                    ms = [MeasurementValue([MidMeasure(wires=w, meas_uid=f"u{u}")]) for w, u in zip(wsel, uids)]
+                    mv = ms[0]
+                    for m in ms[1:]:
+                        mv = mv - 2 * m
+                    n_runs += 1
+                    try:
+                        got = list(mv.wires)
+                    except Exception as ex:  # pylint: disable=broad-except
+                        got = f"raised {type(ex).__name__}: {ex}"
+                    want = [list(m.wires)[0] for m in mv.measurements]
+                    if got != want:
+                        return Outcome(REFUTED, "native(bounded)", f"MeasurementValue.wires == {got}, its measurements act on {want} (in branch order)",
+                                       witness=dict(wires=[str(x) for x in wsel], uids=list(uids)),
+                                       replay=dict(confirmed=True, observed=str(got), expected=str(want)))
+        return Outcome(DISCHARGED, "native(bounded)", f"{n_runs} composite measurement values", extra=dict(bounded=True))
+    plan.add(Obligation("C30/measurement_value:MeasurementValue.wires/wire-i-is-the-wire-of-measurement-i(bounded)", "post", mv_wires, bounded=True,
+                        timeout=300, func=(MVF, "MeasurementValue.wires"),
+                        sample="branch i of items()/eigvals() is indexed by measurements[i]; process_raw_samples reads column wires[i]"))
